@@ -171,6 +171,15 @@ def random_doc(rng, max_nodes=40, anim_styles=False, space=False, ruby=True):
 
   add("body", 0)
   grow(1, "body", 1)
+  if rng.random() < 0.3:
+    # the SAME (value-equal) animation step on several elements that begin at different times: each must be resolved
+    # against its own element
+    shared = {"b": 2 * rng.randrange(0, 3 * den + 1), "e": t_opt(0.4), "v": "none"}
+    cands = [k for k in range(len(kind)) if kind[k] in ("p", "span", "div")]
+    for k in rng.sample(cands, min(len(cands), rng.randint(2, 3))):
+      anim[k] = anim[k] + [dict(shared)]
+      if b[k] == NONE_T and rng.random() < 0.7:
+        b[k] = 2 * rng.randrange(1, 4 * den + 1)
   ad = {"n": len(kind), "kind": kind, "parent": parent, "b": b, "e": e, "reg": reg, "disp": disp, "anim": anim, "txt": txt,
         "nr": nr,
         "rb": [t_opt(0.7) for _ in range(nr)], "re": [t_opt(0.7) for _ in range(nr)],
